@@ -26,7 +26,7 @@ TSpin     == IsEvent("spin") /\ SpinCore(Ev.q)
 TPeek     == IsEvent("peek") /\ PeekCore(Ev.q, Ev.key, Ev.val)
 TArgPair  == IsEvent("argpair") /\ ArgPairCore(Ev.a, Ev.b)
 TRule     == IsEvent("rule") /\ RuleRunCore(Ev.q, Ev.r, Ev.tag)
-TReturn   == IsEvent("req_end") /\ ReturnCore(Ev.q, Ev.err, Ev.vals, Ev.cv)
+TReturn   == IsEvent("req_end") /\ ReturnCore(Ev.q, Ev.err, Ev.vals, Ev.cv) /\ (Ev.full => (~Ev.err /\ FullRun(Ev.q)))
 TPush     == IsEvent("push") /\ (CheckLocks => Ev.locked = 1) /\ PushCore(Ev.i, Ev.len)
 TClear    == IsEvent("clear") /\ ClearCore(Ev.q, Ev.i)
 TPut      == IsEvent("put") /\ PutCore(Ev.q, Ev.i)
